@@ -5,6 +5,7 @@ package c08x
 
 import (
 	"fmt"
+	"reflect"
 	"strconv"
 	"strings"
 
@@ -225,4 +226,106 @@ func ParseDir(s string) (rev bool, ok bool) {
 		return true, true
 	}
 	return false, false
+}
+
+// ---------------------------------------------------------------- process-wide invariants
+
+// MaskTableIntact checks by behaviour that the package's single-bit mask table is what every theorem assumes
+// (`u64Tab[i] = 1 << i`): on a fresh word, Set(i) yields exactly 1<<i with Len 1, and Unset(i) clears exactly bit i of a
+// full word. The table is package state: anything in the process that scribbles over it breaks every bitmap.
+func MaskTableIntact() (bool, string) {
+	for i := 0; i < 64; i++ {
+		var w bitmap1024.Bit64
+		w.Set(byte(i))
+		if uint64(w) != 1<<uint(i) || w.Len() != 1 {
+			return false, fmt.Sprintf("fresh word after Set(%d) is %x (Len %d), expected %x", i, uint64(w), w.Len(), uint64(1)<<uint(i))
+		}
+		f := ^bitmap1024.Bit64(0)
+		f.Unset(byte(i))
+		if uint64(f) != ^(uint64(1) << uint(i)) {
+			return false, fmt.Sprintf("full word after Unset(%d) is %x, expected %x", i, uint64(f), ^(uint64(1) << uint(i)))
+		}
+	}
+	return true, ""
+}
+
+// Held is a result returned earlier by the code under test, together with a private copy taken at that moment.
+// Recheck reports whether the returned slice still has its original content (a result that shares storage with a
+// package-level buffer, with the receiver or with a later result is silently rewritten by later calls).
+type Held struct {
+	Site    string
+	Recheck func() (bool, string)
+}
+
+func Hold[T Elem](site string, s []T) Held {
+	snap := append([]T(nil), s...)
+	return Held{Site: site, Recheck: func() (bool, string) {
+		if EqualVals(s, snap) {
+			return true, ""
+		}
+		return false, fmt.Sprintf("the slice returned earlier was %s and now reads %s", ShowVals(snap), ShowVals(s))
+	}}
+}
+
+// ProbeAPI calls every exported method of the package's types once, reflectively, on throw-away values with small
+// arguments, and reports the methods after which the process-wide mask table is no longer intact. It exists for
+// methods the scripts do not know about (added after the model was written): whatever they compute, they must not
+// damage state shared by every bitmap in the process. Panics of the probed calls are ignored.
+func ProbeAPI() []string {
+	big, _ := bitmap1024.NewBigU32FromI64(3*1024 + 5)
+	tip := bitmap1024.NewU32BitTipFromU32(3*1024 + 5)
+	bm := bitmap1024.NewBit1024()
+	bm.SetI32(5)
+	w := bitmap1024.Bit64(0x21)
+	targets := []interface{}{big, bitmap1024.BigU32s{big}, tip, bitmap1024.U32BitTips{tip}, bm, w, &w}
+	var bad []string
+	if ok, _ := MaskTableIntact(); !ok {
+		return nil // already damaged before the probe: nothing can be attributed
+	}
+	for _, tgt := range targets {
+		v := reflect.ValueOf(tgt)
+		t := v.Type()
+		for i := 0; i < t.NumMethod(); i++ {
+			m := t.Method(i)
+			mt := v.Method(i).Type()
+			args := make([]reflect.Value, mt.NumIn())
+			for k := range args {
+				args[k] = probeArg(mt.In(k))
+			}
+			func() {
+				defer func() { _ = recover() }()
+				if mt.IsVariadic() {
+					v.Method(i).CallSlice(args)
+				} else {
+					v.Method(i).Call(args)
+				}
+			}()
+			if ok, what := MaskTableIntact(); !ok {
+				bad = append(bad, fmt.Sprintf("%s.%s: %s", t.String(), m.Name, what))
+				return bad // the table stays damaged: later methods cannot be judged
+			}
+		}
+	}
+	return bad
+}
+
+func probeArg(t reflect.Type) reflect.Value {
+	v := reflect.New(t).Elem()
+	switch t.Kind() {
+	case reflect.Int8, reflect.Uint8:
+		if t.Kind() == reflect.Int8 {
+			v.SetInt(5)
+		} else {
+			v.SetUint(5)
+		}
+	case reflect.Int, reflect.Int16, reflect.Int32, reflect.Int64:
+		v.SetInt(3*1024 + 5)
+	case reflect.Uint, reflect.Uint16, reflect.Uint32, reflect.Uint64:
+		v.SetUint(3*1024 + 5)
+	case reflect.Slice:
+		v.Set(reflect.MakeSlice(t, 8, 8))
+	case reflect.Ptr:
+		v.Set(reflect.New(t.Elem()))
+	}
+	return v
 }
